@@ -2,7 +2,9 @@ import Mathlib.Algebra.Module.Basic
 import Mathlib.Algebra.Field.Basic
 import Mathlib.Data.ZMod.Basic
 import Mathlib.Tactic.Ring
+import IpaVerif.Props.C07Shares
 namespace IpaVerif.C07
+open IpaVerif
 
 /-- **prf_value** — `eval_dy_prf`: in any module `M` over a field `K` (Ristretto points over `ZMod ℓ`, by hypothesis),
 for a mask `r ≠ 0` and `x + k ≠ 0`: revealing `R = r • G` and `z = r·(x+k)` and computing `z⁻¹ • R` yields
@@ -20,14 +22,51 @@ multiplication itself is `mul_reconstruct`). -/
 theorem prf_masked_product {K : Type} [Field K] (x1 x2 x3 k1 k2 k3 r : K) :
     ((x1 + k1) + (x2 + k2) + (x3 + k3)) * r = r * ((x1 + x2 + x3) + (k1 + k2 + k3)) := by ring
 
-/-- **conv_value** (arithmetic core of `convert_to_fp25519`) — with the two top bits of the masks cleared
-(`r, s < 2^254`) and an input of at most 127 bits, `y = x + r + s` does not wrap modulo `2^256`, and the three
-output shares `(−s, y, −r)` sum to `x` in any ring the integers map into (`Fp25519 = ZMod ℓ`). -/
-theorem conv_value_partial (x r s : Nat) (hx : x < 2 ^ 127) (hr : r < 2 ^ 254) (hs : s < 2 ^ 254) :
-    r + s < 2 ^ 255 ∧ (x + (r + s)) % 2 ^ 256 = x + r + s := by
-  refine ⟨by omega, ?_⟩
-  rw [Nat.mod_eq_of_lt (by omega)]; omega
+/-- `eval_dy_prf` on the three helpers' views, over any field `K` acting on any module `M` (Ristretto points over
+`ZMod ℓ` by hypothesis): `y = x + k` (local), `z = reveal (y · r)` (one interactive multiplication with PRSS
+masks `ρ`), `R = reveal (r_left • G)` (the three left components added as points), output `z⁻¹ • R`. -/
+noncomputable def evalDyPrf {K M : Type} [Field K] [AddCommGroup M] [Module K M]
+    (ρ : Sharing.Masks K) (G : M) (x k r : Sharing.World K) : M :=
+  let y := Sharing.addS (ringAlg K) x k
+  let z := Sharing.reconstruct (ringAlg K) (Sharing.mulS (ringAlg K) ρ y r)
+  let gr := r.h1.l • G + r.h2.l • G + r.h3.l • G
+  z⁻¹ • gr
 
+/-- **prf_protocol_value** — for consistent sharings of the match key `x`, the PRF key `k` and the mask `r`, ANY
+multiplication masks, `r ≠ 0` and `x + k ≠ 0`: the value every helper computes is `(x + k)⁻¹ • G`. -/
+theorem prf_protocol_value {K M : Type} [Field K] [AddCommGroup M] [Module K M]
+    (ρ : Sharing.Masks K) (G : M) (x k r : Sharing.World K)
+    (hx : Sharing.Consistent x) (hk : Sharing.Consistent k) (hr : Sharing.Consistent r)
+    (hr0 : Sharing.reconstruct (ringAlg K) r ≠ 0)
+    (hxk : Sharing.reconstruct (ringAlg K) x + Sharing.reconstruct (ringAlg K) k ≠ 0) :
+    evalDyPrf ρ G x k r
+      = (Sharing.reconstruct (ringAlg K) x + Sharing.reconstruct (ringAlg K) k)⁻¹ • G := by
+  unfold evalDyPrf
+  simp only
+  have hc : Sharing.Consistent (Sharing.addS (ringAlg K) x k) := map2_consistent _ x k hx hk
+  rw [mul_reconstruct ρ _ r hc hr, add_reconstruct, ← add_smul, ← add_smul]
+  have : r.h1.l + r.h2.l + r.h3.l = Sharing.reconstruct (ringAlg K) r := rfl
+  rw [this, mul_comm]
+  exact prf_value G _ _ _ hr0 hxk
+
+/-- **prf_injective** — if `G` has full order (`a • G = 0 → a = 0`, true for the Ristretto base point over
+`ZMod ℓ`), distinct match keys give distinct points and equal match keys equal points: the pseudonym (before the
+final hash) identifies the match key exactly. -/
+theorem prf_injective {K M : Type} [Field K] [AddCommGroup M] [Module K M] (G : M)
+    (hG : ∀ a : K, a • G = 0 → a = 0) (x x' k : K) (h : x + k ≠ 0) (h' : x' + k ≠ 0) :
+    (x + k)⁻¹ • G = (x' + k)⁻¹ • G ↔ x = x' := by
+  constructor
+  · intro he
+    have h0 : ((x + k)⁻¹ - (x' + k)⁻¹) • G = 0 := by rw [sub_smul, he, sub_self]
+    have := sub_eq_zero.mp (hG _ h0)
+    have := inv_injective this
+    exact add_right_cancel this
+  · rintro rfl; rfl
+
+example : ∀ a : ZMod 7, a • (1 : ZMod 7) = 0 → a = 0 := by decide
+
+/-- `convert_to_fp25519`: the full statement is `conv_value` in `IpaVerif.Props.C07Conv`; this is its ring-level core:
+the output shares `(−s, y, −r)` sum to `x` in any ring the integers map into (`Fp25519 = ZMod ℓ`). -/
 theorem conv_shares_sum {R : Type} [CommRing R] (x r s : Nat) :
     (-(s : R)) + ((x + r + s : Nat) : R) + (-(r : R)) = (x : R) := by
   push_cast; ring
